@@ -283,8 +283,9 @@ def main(tier):
     run = PropertyRun('C02', tier, level='proof')
     repo().load('pgns')
     for L in (1, 2, 3, 4, 5, 6, 8, 11, 12, 16, 21, 24, 28, 32, 64):
-        for vk, rk in (('int', 'int'), ('float', 'float'), ('float', 'int'), ('int', 'float'), ('none', 'float')):
-            sp = EncodeNumber(L, vk, rk)
+        for vk, rk, ok in (('int', 'int', 'zero'), ('float', 'float', 'zero'), ('float', 'int', 'zero'), ('int', 'float', 'zero'), ('none', 'float', 'zero'),
+                           ('float', 'int', 'int'), ('int', 'int', 'int'), ('float', 'float', 'int')):          # excess-K fields (Offset != 0)
+            sp = EncodeNumber(L, vk, rk, ok)
             sp.prop = 'C02'
             run.add(SpecTask(sp))
     for none in (False, True):
